@@ -1,7 +1,7 @@
 """C06 — search results are sound (ranking kernels, oversampling, heap; tombstone filter skeleton)."""
-from vlib.runner import KH, run_kani_group
+from vlib.mo import *
+from vlib.runner import KH, run_kani_group, run_mir_obligations
 
-ENGINES = "K"
 LEVEL = "other"
 EXPLANATION = "Kani/CBMC bounded verdicts over the real ranking kernels (orders, binary heap, oversampling arithmetic, user-distance conversion) with fully symbolic floats; MIR path obligations for the tombstone filter."
 TRUSTED_BASE = ["Kani 0.68 MIR->goto translation", "CBMC 6.11 float semantics + CaDiCaL", "Kani's model of sqrtf32 (O6.2 only uses sign/NaN facts)"]
@@ -23,6 +23,32 @@ HARNESSES = [
 ]
 
 
+HB = "hnsw_backend::HnswBackend::"
+T = "tiered_engine::TieredEngine::"
+PUSH = call(r"= Vec::<(hnsw_index::)?SearchResult>::push\(", name="mapped.push")
+MOS = [
+    MO("O6.6/tombstone_filter", "knn_search_with_ef_cancel: a result is emitted only for an internal id that maps to Some(Some(external id)) (tombstones and out-of-range ids skipped), under the doc_store read lock, and at most k results",
+       allof(only_via(HB + "knn_search_with_ef_cancel", PUSH, Arm(r"^discr\(call core::slice::<impl \[Option<u64>\]>::get::<usize>\)$", {"1"}, name="internal id in range")),
+             only_via(HB + "knn_search_with_ef_cancel", PUSH, Arm(r"^discr\(\(\*\{no_retag copy \(\(_\d+ as Some\)\.0: &Option<u64>\)\}\)\)$", {"1"}, name="slot is live (Some)")),
+             held(HB + "knn_search_with_ef_cancel", DOCSTORE_READ, PUSH),
+             follows(HB + "knn_search_with_ef_cancel", PUSH, anyev(r"^_\d+ = Ge\(move _\d+, copy _3\);$|= Vec::<(hnsw_index::)?SearchResult>::len\(", name="mapped.len() >= k test"), exit="ok"),
+             precedes(HB + "knn_search_with_ef_cancel", call(r"= (hnsw_backend::)?compute_search_k\(", name="compute_search_k"), call(r"= HnswVectorIndex::knn_search_with_ef_cancel\(", name="index search"))),
+       functions=[("hnsw_backend.rs", "knn_search_with_ef_cancel")]),
+    MO("O6.6/merge", "merge_knn_results: dedup map filled from the hot results first (hot wins via or_insert for cold), then sorted by distance, then truncated to k",
+       allof(never(T + "merge_knn_results", call(r"= hash_map::Entry::<'_, u64, f32>::or_insert\(", name="entry(cold).or_insert"), frm=call(r"sort_by::<", name="sort_by distance")),
+             never(T + "merge_knn_results", call(r"= HashMap::<u64, f32>::insert\(", name="map.insert(hot)"), frm=call(r"sort_by::<", name="sort_by distance")),
+             precedes(T + "merge_knn_results", call(r"sort_by::<", name="sort_by distance"), call(r"= Vec::<(hnsw_index::)?SearchResult>::truncate\(", name="truncate(k)")),
+             follows(T + "merge_knn_results", call(r"sort_by::<", name="sort_by distance"), call(r"= Vec::<(hnsw_index::)?SearchResult>::truncate\(", name="truncate(k)"), exit="any"),
+             never(T + "merge_knn_results", call(r"= HashMap::<u64, f32>::insert\(", name="map.insert (overwriting)"), frm=call(r"= hash_map::Entry::<'_, u64, f32>::or_insert\(", name="entry(cold).or_insert"))),
+       functions=[("tiered_engine.rs", "merge_knn_results")]),
+    MO("O6.6/hot_filter", "every search entry point filters hot-tier candidates through filter_hot_knn_results_to_canonical before merging",
+       allof(*[precedes(T + f, call(r"= TieredEngine::filter_hot_knn_results_to_canonical\(", name="filter_hot_knn_results_to_canonical"), call(r"= TieredEngine::merge_knn_results\(", name="merge_knn_results"))
+               for f in ("knn_search_with_ef_detailed_scoped",)]),
+       functions=[("tiered_engine.rs", "knn_search_with_ef_detailed_scoped")]),
+]
+
+
 def run(tier, seed, notes):
-    return run_kani_group("C06", tier, "lib", {"hnsw_backend.rs": "hnsw_backend_proofs.rs", "ann_backend.rs": "ann_backend_proofs.rs", "hot_tier.rs": "hot_tier_proofs.rs", "hnsw_index.rs": "hnsw_index_proofs.rs", "simd.rs": "simd_proofs.rs"},
+    obls = run_mir_obligations("C06", tier, MOS, notes)
+    return obls + run_kani_group("C06", tier, "lib", {"hnsw_backend.rs": "hnsw_backend_proofs.rs", "ann_backend.rs": "ann_backend_proofs.rs", "hot_tier.rs": "hot_tier_proofs.rs", "hnsw_index.rs": "hnsw_index_proofs.rs", "simd.rs": "simd_proofs.rs"},
                           HARNESSES, jobs=6, notes=notes)
